@@ -8,6 +8,7 @@ ops (JSON-able lists):
   ["ctrl", P, S]
   ["join_returns"]
   ["jte", tails, exits]
+  ["level", region_name | None]            following ops act on that (sub)graph
 """
 
 from __future__ import annotations
@@ -54,6 +55,7 @@ def snap(b):
 class Exec:
     def __init__(self):
         self.real = None
+        self.cur = None  # the (sub)graph the edit operations act on
         self.orig = None  # initial flat graph (for path preservation)
         self.paths_ok = True  # history so far preserves paths by construction
         self.flags = set()
@@ -61,7 +63,17 @@ class Exec:
 
     # ------------------------------------------------------------------
     def top(self):
-        return {k: snap(b) for k, b in self.real.graph.items()}
+        return {k: snap(b) for k, b in self.cur.graph.items()}
+
+    def _op_level(self, rname):
+        if rname is None:
+            self.cur = self.real
+            return
+        flat = M.Flat(self.real)
+        if rname not in flat.regions:
+            raise ValueError(f"no region {rname}")
+        self.cur = flat.regions[rname].subregion
+        self.flags.add("sublevel")
 
     def apply(self, op):
         kind = op[0]
@@ -87,9 +99,10 @@ class Exec:
             # fully restructured: top-level predecessors are regions whose
             # exiting blocks are regions themselves
             self._call(self.real.restructure_branch)
+        self.cur = self.real
 
     def _op_insert(self, kind, P, S):
-        real = self.real
+        real = self.cur
         cls, bn = KINDS[kind]
         before = self.top()
         new = real.name_gen.new_block_name(bn)
@@ -156,7 +169,7 @@ class Exec:
                 self.paths_ok = False
 
     def _op_ctrl(self, P, S):
-        real = self.real
+        real = self.cur
         before = self.top()
         blocks_before = dict(real.graph)
         new = real.name_gen.new_block_name(BN.SYNTH_HEAD)
@@ -208,7 +221,7 @@ class Exec:
             raise M.Viol("E-ctrl-table", f"ctrl({P},{S}): head table {nb.branch_value_table} does not cover S")
 
     def _op_join_returns(self):
-        real = self.real
+        real = self.cur
         before = self.top()
         exits = [k for k, b in before.items() if not [t for t in b["jt"] if t not in b["be"]]]
         self._call(real.join_returns)
@@ -234,7 +247,7 @@ class Exec:
             raise M.Viol("E-jr-one", f"join_returns leaves exits {now}")
 
     def _op_jte(self, tails, exits):
-        real = self.real
+        real = self.cur
         before = self.top()
         arcs = [(t, x) for t in tails for x in before[t]["jt"] if x in exits]
         st, sx = self._call(real.join_tails_and_exits, list(tails), list(exits))
